@@ -128,7 +128,10 @@ def concretize(ms, variant=0, cut=None):
     for mi, m in enumerate(ms):
         pad = m.get("pad") or {"rl": 0, "h": 0, "c": 0, "t": 0}
         px = m.get("px", "none")
-        if px != "none":
+        if px in ("blank1", "blank2"):
+            for _ in range(int(px[-1])):
+                c.crlf()
+        elif px != "none":
             c.line("PXbad" if px == "on_bad" else "PX", pick(PX_BAD if px == "on_bad" else PX_OK, v), 0, b"")
         rl = m["rl"]
         if rl == "RLbad":
